@@ -436,6 +436,44 @@ def specNow (s : St) (fr : FuncRec) : RH :=
   | .ok v => embed v
   | .error _ => .unres []
 
+/-! ### specification under REBINDING: an annotation denotes what its names denote when the `def` executes
+
+  `specNow` reads every name in the current state; that is the property's reading only as long as no name of the
+  annotation has been rebound since the `def` statement ran. An evaluated annotation is fixed when the `def`
+  executes: `class K: …; def f(x: K)`, then `class K: …` again, leaves `f` annotated with the FIRST class. The
+  property compares the string forms with that evaluated form, so the specified hint of a callable reads every
+  name that was bound at the def point (Python's scoping there, in the state `s0` the `def` executed in) as the
+  object it denoted THEN; only a name unbound at the def point (a string naming something defined later — the
+  evaluated form does not exist for it) is read in the current state. (The unchanged library agrees: a string naming
+  something bound in the forward scope is `eval`ed at decoration time, directly after the `def`, and the result is
+  stored in the wrapper for good; only a name unbound then becomes a proxy, looked up as a module attribute / parent
+  local when a check first needs it and cached from then on.) -/
+
+/-- the specification's lookup for a callable whose `def` executed in state `s0`, asked in state `s` -/
+def specDefLk (s0 s : St) (f : Nat) (lex : List Nat) (n : Name) : Except Err H :=
+  match specLookup s0 lex n with
+  | some v => .ok v
+  | none => specLk s f lex n
+
+/-- the specified hint of callable `fr`, whose `def` executed in state `s0`, for a call in state `s` -/
+def specDef (s0 s : St) (fr : FuncRec) : RH :=
+  match evalH s.heap (specDefLk s0 s fr.fid fr.lex) true fr.expr with
+  | .ok v => embed v
+  | .error _ => .unres []
+
+/-- the def-point states of the callables defined so far (kept beside the state by whoever runs a history) -/
+abbrev DefPoints := List (Nat × St)
+
+def DefPoints.get? : DefPoints → Nat → Option St
+  | [], _ => none
+  | (g, s0) :: r, f => if g = f then some s0 else DefPoints.get? r f
+
+/-- the specified hint of a call of `f` in state `s`: `specDef` from its recorded def point -/
+def specCall (dp : DefPoints) (s : St) (f : Nat) : Option RH :=
+  match s.func? f, dp.get? f with
+  | some fr, some s0 => some (specDef s0 s fr)
+  | _, _ => none
+
 /-! ### events and histories -/
 
 inductive Ev where
@@ -501,6 +539,17 @@ def run (s : St) : List Ev → St × List Out
     let (s', o) := step s ev
     let (s'', os) := run s' evs
     (s'', o :: os)
+
+/-- the def points along a history: a `def` statement records the state it executes in (a re-executed `def` of the
+    same callable replaces the older record) -/
+def recordDef (dp : DefPoints) (s : St) : Ev → DefPoints
+  | .def_ f _ _ => (f, s) :: dp
+  | _ => dp
+
+/-- `run` that also keeps the def points -/
+def runDP (dp : DefPoints) (s : St) : List Ev → DefPoints × St
+  | [] => (dp, s)
+  | ev :: evs => runDP (recordDef dp s ev) (step s ev).1 evs
 
 def St.init (builtins : Scope) (heap : Heap) : St :=
   { builtins, globals := [], acts := [], stack := [], heap, funcs := [], cache := [] }
